@@ -132,6 +132,10 @@ def gen_rich_spec(rng, sbml=False):
         if rng.random() < 0.1:
             spec["obj"] = {rng.choice(rids): "1/3"}
     spec["groups"] = groups
+    if not sbml and rng.random() < 0.4:
+        # notes / annotation of the model itself (most models have none: the loaders then fall back on their defaults)
+        spec["model_notes"] = rng.choice([{"curated by": "hand"}, {"a": "1", "refs": ["x", "y"]}])
+        spec["model_annotation"] = rng.choice([{"taxonomy": "511145"}, {"bigg.model": ["e_coli_core", "iJO1366"], "sbo": "SBO:0000624"}])
     return spec
 
 
@@ -177,6 +181,10 @@ def build(spec) -> Model:
         m.objective_direction = spec["dir"]
         if spec.get("compartments"):
             m.compartments = dict(spec["compartments"])
+        if spec.get("model_notes"):
+            m.notes = dict(spec["model_notes"])
+        if spec.get("model_annotation"):
+            m.annotation = {k: (list(v) if isinstance(v, list) else v) for k, v in spec["model_annotation"].items()}
         for g in spec.get("groups", []):
             G = Group(g["id"], name=g["name"], kind=g["kind"])
             mem = []
@@ -203,7 +211,7 @@ def norm_ann(a):
     return dict(sorted(out.items()))
 
 
-def rich_dump(model, with_groups=True, bounds_digits=None) -> dict:
+def rich_dump(model, with_groups=True, bounds_digits=None, model_meta=False) -> dict:
     """Everything the round-trip properties list, in canonical form (rules as truth tables, annotations with sorted lists)."""
     def b(x):
         if bounds_digits is not None and math.isfinite(x) and x != 0:
@@ -212,6 +220,12 @@ def rich_dump(model, with_groups=True, bounds_digits=None) -> dict:
     c = canon.content_dump(model)
     out = {"id": model.id, "name": model.name, "dir": model.objective_direction, "compartments": dict(sorted(model.compartments.items())),
            "rxns": {}, "mets": {}, "genes": {}}
+    if model_meta:
+        # notes and annotation of the model itself (and of its groups)
+        out["model_notes"] = dict(sorted((model.notes or {}).items()))
+        out["model_annotation"] = norm_ann(model.annotation)
+        if with_groups:
+            out["group_meta"] = {g.id: {"notes": dict(sorted((g.notes or {}).items())), "annotation": norm_ann(g.annotation)} for g in model.groups}
     for r in model.reactions:
         out["rxns"][r.id] = {"name": r.name, "lb": b(r.lower_bound), "ub": b(r.upper_bound), "st": c["rxns"][r.id]["st"],
                              "genes": c["rxns"][r.id]["genes"], "tt": truth_table(r.gpr), "obj": c["rxns"][r.id]["obj"],
